@@ -24,6 +24,8 @@ impl PortAllocatorInner {
         if self.is_available() {
             let number = loop {
                 let cand = rand::random();
+                #[cfg(remoc_verif)]
+                let cand = crate::exec::verif::random_u32().unwrap_or(cand);
                 if !self.used.contains(&cand) {
                     break cand;
                 }
